@@ -22,12 +22,12 @@ type world struct {
 	l1    *uint64    // recorded L1 head number (nil: never recorded)
 
 	commitments map[felt.Felt]*core.BlockCommitments // by block hash, captured on the source node
-	classDefs   map[felt.Felt]core.ClassDefinition  // every class ever offered, by class hash
-	classPrint  map[string]felt.Felt                // fingerprint of the RPC rendering -> class hash
+	classDefs   map[felt.Felt]core.ClassDefinition   // every class ever offered, by class hash
+	classPrint  map[string]felt.Felt                 // fingerprint of the RPC rendering -> class hash
 
-	revertedBlocks []felt.Felt // hashes of blocks no longer on the chain
-	revertedTxs    []felt.Felt // hashes of transactions no longer on the chain
-	revertedClass  []felt.Felt // classes declared only in reverted blocks (may be re-declared later)
+	revertedBlocks []felt.Felt                         // hashes of blocks no longer on the chain
+	revertedTxs    []felt.Felt                         // hashes of transactions no longer on the chain
+	revertedClass  []felt.Felt                         // classes declared only in reverted blocks (may be re-declared later)
 	everWritten    map[[2]felt.Felt]map[felt.Felt]bool // every non-zero value any block ever wrote to a slot
 
 	ops []string // history, for the replay file
